@@ -110,6 +110,13 @@ class CFG:
                 self._edge(n, h, "exc")
 
     def _stmt(self, st: ast.stmt, succ: int, ctx: _Ctx) -> int:
+        if isinstance(st, ast.Return) and isinstance(st.value, ast.IfExp):
+            # 'return A if C else B' is the statement 'if C: return A / else: return B' (normal form for the path rules)
+            arms = [ast.copy_location(ast.Return(value=v), st) for v in (st.value.body, st.value.orelse)]
+            iff = ast.copy_location(ast.If(test=st.value.test, body=[arms[0]], orelse=[arms[1]]), st)
+            t = self._stmt(iff, succ, ctx)
+            self.stmt_node[st] = t
+            return t
         if isinstance(st, ast.If):
             t = self._new("test", st.test, st)
             self.stmt_node[st] = t
